@@ -604,6 +604,8 @@ class C02(Check):
                 if not in_single(col, tier):
                     continue
                 for kind in A.KINDS:
+                    if 'cats' in col and kind in ('sign', 'max_nulls'):
+                        continue      # nothing categorical about them
                     for enc in A.constraint_values(col, kind, tier):
                         yield {'L': 'single', 'col': col, 'kind': kind,
                                'val': enc}
@@ -612,10 +614,13 @@ class C02(Check):
                 if in_single(col, tier):
                     continue              # already done one by one
                 for kind in A.KINDS:
+                    if 'cats' in col and kind in ('sign', 'max_nulls'):
+                        continue
                     yield {'L': 'grid', 'col': col, 'kind': kind}
         elif layer == 'missing':
             for col in A.small_columns(tier):
-                if len(col['vals']) > 1 and tier != 'thorough':
+                if (len(col['vals']) > 1 or 'cats' in col) \
+                        and tier != 'thorough':
                     continue
                 yield {'L': 'missing', 'col': col}
         elif layer == 'nulladd':
@@ -623,6 +628,8 @@ class C02(Check):
             for col in A.columns(tier):
                 if col['fam'] != 'manycat' and len(col['vals']) > R:
                     continue
+                if tier == 'quick' and 'cats' in col:
+                    continue       # categorical variants: single / grid
                 for kind in A.KINDS:
                     yield {'L': 'nulladd', 'col': col, 'kind': kind}
         elif layer == 'pairs':
@@ -631,6 +638,8 @@ class C02(Check):
                 if col['fam'] != 'manycat' and n > 2 and not (
                         tier == 'thorough' and n == 3 and col['fam'] in
                         ('i64', 'f64', 'Int64', 'boolobj', 'dt_ns')):
+                    continue
+                if tier == 'quick' and 'cats' in col:
                     continue
                 for i, k1 in enumerate(A.KINDS):
                     yield {'L': 'pairs', 'col': col, 'k1': k1}
@@ -641,7 +650,8 @@ class C02(Check):
                         yield {'L': 'report', 'c1': c1, 'c2': c2, 'n1': n1, 'n2': n2}
         elif layer == 'file':
             for col in A.small_columns(tier):
-                if len(col['vals']) > 1 and tier != 'thorough':
+                if (len(col['vals']) > 1 or 'cats' in col) \
+                        and tier != 'thorough':
                     continue
                 for kind in A.KINDS:
                     yield {'L': 'file', 'col': col, 'kind': kind}
